@@ -27,11 +27,13 @@ Definition go_append (a : okey) (b : key) : okey :=
   | None => match b with [] => None | _ => Some b end
   end.
 
-(* leveldb.go: r := util.BytesPrefix(prefix); r.Start = append(r.Start, start...) *)
+(* leveldb.go (repaired, fixes/C23.patch):
+     r := util.BytesPrefix(prefix); r.Start = append(append([]byte(nil), r.Start...), start...) *)
 Definition ldb_range (prefix start : okey) : okey * okey :=
-  (go_append prefix (ob start), bytes_prefix_limit (ob prefix)).
+  (go_append (go_append None (ob prefix)) (ob start), bytes_prefix_limit (ob prefix)).
 
-(* pebble.go: nil options when both are nil; LowerBound = []byte{} when prefix is nil *)
+(* pebble.go (repaired): nil options when both are nil; LowerBound = []byte{} when prefix is nil;
+     r.LowerBound = append(append([]byte{}, r.LowerBound...), start...) *)
 Definition pbl_range (prefix start : okey) : option (okey * okey) :=
   match prefix, start with
   | None, None => None
@@ -40,8 +42,24 @@ Definition pbl_range (prefix start : okey) : option (okey * okey) :=
                   | Some p => (Some p, bytes_prefix_limit p)
                   | None => (Some [], None)
                   end in
-      Some (go_append (fst lohi) (ob start), snd lohi)
+      Some (go_append (go_append (Some []) (ob (fst lohi))) (ob start), snd lohi)
   end.
+
+(* ---- the caller's buffer (C23 finding, repaired) ----
+   A Go slice seen by its caller: the backing array from the slice's start ([g_arr], its length is
+   the capacity) and the slice length.  append(a, b...) writes in place when the capacity
+   suffices; the pinned tree appended [start] to a slice aliasing the caller's [prefix]. *)
+Record gslice := { g_arr : list N; g_len : nat }.
+(* the caller's backing array after append(a, b...) *)
+Definition append_in_place (a : gslice) (b : key) : list N :=
+  if Nat.leb (g_len a + length b)%nat (length (g_arr a))
+  then firstn (g_len a) (g_arr a) ++ b ++ skipn (g_len a + length b)%nat (g_arr a)
+  else g_arr a.
+(* pinned tree: r.Start = append(r.Start, start...) with r.Start == prefix *)
+Definition caller_buffer_after_range_old (prefix : gslice) (start : key) : list N :=
+  append_in_place prefix start.
+(* repaired: the bound is copied first, the append works on the copy *)
+Definition caller_buffer_after_range (prefix : gslice) (start : key) : list N := g_arr prefix.
 
 (* the engines: keys k with lo <= k < hi (a nil bound = unbounded), ascending *)
 Definition in_bounds (lo hi : okey) (k : key) : bool :=
